@@ -397,7 +397,9 @@ func vC19Catalogue(seed int64, ngen int) []*vC19Token {
 
 type vC19Rand struct{ s uint64 }
 
-func newVC19Rand(seed int64) *vC19Rand { return &vC19Rand{s: uint64(seed)*0x9E3779B97F4A7C15 + 0x1234567} }
+func newVC19Rand(seed int64) *vC19Rand {
+	return &vC19Rand{s: uint64(seed)*0x9E3779B97F4A7C15 + 0x1234567}
+}
 func (r *vC19Rand) next() uint64 {
 	r.s ^= r.s << 13
 	r.s ^= r.s >> 7
@@ -1340,9 +1342,22 @@ func TestVerif_C19_BodyPaths(t *testing.T) {
 		dRead += time.Since(tr0)
 	}
 	// ---- replication phases (thorough): everything written above, after the revision cache was emptied
+	// replication starts from sequence 0: only what the feed lists from there can be delivered at all (with Rosmar a view
+	// backfill silently omits documents its JavaScript engine cannot parse, e.g. numbers beyond the double range)
+	fullFeed := map[string]bool{}
+	if needBlip || needPeers {
+		var plain vC19ChangesResp
+		r := e.send("GET", "/"+e.ks+"/_changes?since=0", "")
+		if r.Code != 200 || json.Unmarshal(r.Body.Bytes(), &plain) != nil {
+			t.Fatalf("VERIF-FATAL plain _changes since 0 failed: %d %.300s", r.Code, r.Body.String())
+		}
+		for _, row := range plain.Results {
+			fullFeed[row.ID] = true
+		}
+	}
 	fill := func(rp string, get func(in *vC19Inst) (int, []byte, bool)) {
 		for _, in := range insts {
-			if in.dead || len(in.revIDs) == 0 || !in.inFeed {
+			if in.dead || len(in.revIDs) == 0 || !in.inFeed || !fullFeed[in.docID] {
 				continue // not listed by the feed: replication cannot be observed for it (recorded as unobserved)
 			}
 			for _, rd := range in.reads {
